@@ -19,4 +19,5 @@ import sys
 sys.path.insert(0, '.')
 from vlib import common
 print(common.build('dw', 'debug'))
+print(common.build('oct', 'debug'))
 PY
